@@ -405,7 +405,8 @@ class Simulator:
 
         for t_end, pars in protocol.iterrows():
             t_end = cast(pd.Timedelta, t_end)
-            self.model.update_parameters(pars.to_dict())
+            # A step only sets the parameters it names (the frame pads the others with NaN)
+            self.model.update_parameters(pars.dropna().to_dict())
             self.simulate(t_start + t_end.total_seconds(), steps=time_points_per_step)
             if self.variables is None:
                 break
@@ -469,7 +470,8 @@ class Simulator:
         full_time_points = protocol.index.join(pd.Index(time_points), how="outer")
 
         for t_end, pars in protocol.iterrows():
-            self.model.update_parameters(pars.to_dict())
+            # A step only sets the parameters it names (the frame pads the others with NaN)
+            self.model.update_parameters(pars.dropna().to_dict())
 
             self.simulate_time_course(
                 time_points=full_time_points[
